@@ -6,6 +6,8 @@ from univers import versions as V
 
 MODULES = ["Univers.Props.C11", "Univers.Scheme.TablesThm"]
 LEVEL = "proof"
+# textual tie (regular expressions of /repo as the recognisers read them): runner step 3a
+TIE_THEOREMS = {"Univers.Scheme.RegexPins": ["Univers.Tables.regex_sites_pinned", "Univers.Tables.compiled_patterns_pinned"]}
 RULE = ("per version class: strings generated from the scheme's documented grammar (valid by construction), respellings "
         "(whitespace, leading v, zero padding …) and structure-aware mutations; the real constructor / str against the Lean "
         "model (`vparse`), and the property's own oracle on the real code: is_valid(normalize(s)) == constructor succeeds, a "
